@@ -84,7 +84,7 @@ func ruleUserFnContext() check.Rule {
 func ruleGoRecover() check.Rule {
 	return check.Rule{
 		Name:        "GO-RECOVER",
-		Doc:         "every go statement of the library either runs under recoverUnhandledError / a deferred recover, or its body (with the local closures it calls) contains no call of a user-supplied function or observable; notifications sent from it are recovered one hop further by the observer",
+		Doc:         "every go statement of the library either runs under recoverUnhandledError / a deferred recover, or its body (with the local closures it calls) contains no call of a user-supplied function or observable, no terminal notification and no Unsubscribe/Add (they run teardowns, whose panics Unsubscribe re-raises); notifications sent from it are recovered one hop further by the observer",
 		NeedControl: true,
 		Run: func(c *check.Ctx) {
 			m := c.M
@@ -119,9 +119,24 @@ func ruleGoRecover() check.Rule {
 							offender = ""
 						}
 					}
+					// a terminal notification makes the receiving subscriber run its teardowns, and Unsubscribe / Add on a
+					// closed subscription run teardowns directly; Unsubscribe re-raises a teardown's panic into its caller,
+					// which here is a goroutine nobody recovers
+					if offender == "" {
+						for _, e := range sc.Emits {
+							if e.Kind != model.EmitNext && inCtx(e.Ctx, g.Body) {
+								offender = "sends a " + model.SlotNames[e.Kind] + " notification (the receiving subscriber runs its teardowns inside it and re-raises their panics)"
+							}
+						}
+						for _, op := range sc.SubOps {
+							if (op.Method == "Unsubscribe" || op.Method == "Add" || op.Method == "AddUnsubscribable") && inCtx(op.Ctx, g.Body) {
+								offender = "calls " + op.Method + " (which runs teardowns and re-raises their panics)"
+							}
+						}
+					}
 					if offender == "" {
 						if armed {
-							c.OK(key, g.Pos, "bare goroutine whose body calls no user-supplied function (notifications are recovered by the observers)")
+							c.OK(key, g.Pos, "bare goroutine whose body calls no user-supplied function, sends no terminal notification and runs no teardown (value notifications are recovered by the observers)")
 						}
 					} else {
 						c.Report(armed, key, g.Pos, "goroutine is started without the recover wrapper and %s: a panic kills the process", offender)
@@ -1467,4 +1482,23 @@ func sendsTerminal(m *model.Model, p *packages.Package, call *ast.CallExpr) bool
 		})
 	}
 	return found
+}
+
+// inCtx: c is ctx or a context created (directly) inside it that runs on the same goroutine (a source callback
+// subscribed from it, not another goroutine or timer).
+func inCtx(c, ctx *model.Ctx) bool {
+	for x := c; x != nil; x = x.Parent {
+		if x == ctx {
+			return true
+		}
+		if x.Kind == model.KGo || x.Kind == model.KTimer || x.Kind == model.KTeardown {
+			return false
+		}
+		if x.Kind == model.KSrc {
+			// callbacks of a source subscribed from the goroutine run on whatever goroutine the source notifies from;
+			// only a synchronous source would run them here: not decided, not charged to this goroutine
+			return false
+		}
+	}
+	return false
 }
